@@ -200,6 +200,22 @@ def run(ck):
             ("dead-code-then-and", "f := func(n) { if n < -5 { return 0; n = 1 }; for false { return 2; n = 9 }; return n > 0 && f(n - 1) }\nr := f(%d)\n" % D, F),
             ("dead-code-then-call", "f := func(n, acc) { if n < 0 { return -1; acc = 0 }; if n == 0 { return acc; acc = 1 }; return f(n - 1, acc + 2) }\nr := f(%d, 0)\n" % D, I(2 * D)),
         ]
+        shapes += [
+            # the variadic parameter of every iteration stays alive as a value: each iteration has an array of its own
+            ("variadic-kept", "collect := func(n, out, ...v) { out = append(out, v); if n == 0 { return out }; return collect(n - 1, out, n, n * 10) }\no := collect(%d, [])\n"
+                              "r := o[1][0] + o[2][0] * 2 + o[len(o) - 1][0] * 3 + len(o) + o[1][1]\n" % D, I(D + (D - 1) * 2 + 3 + D + 1 + D * 10)),
+            ("variadic-kept/fewer", "collect := func(n, out, ...v) { out = append(out, v); if n == 0 { return out }; return collect(n - 1, out, n) }\no := collect(%d, [], 5, 6, 7)\n"
+                                    "r := o[0][2] + o[1][0] + o[2][0] * 2 + o[len(o) - 1][0] * 3 + len(o)\n" % D, I(7 + D + (D - 1) * 2 + 3 + D + 1)),
+            ("variadic-kept/closure", "fs := []\nkeep := func(n, ...v) { fs = append(fs, func() { return v[0] }); if n == 0 { return len(fs) }; return keep(n - 1, n) }\nk := keep(%d, -1)\n"
+                                      "r := fs[0]() + fs[1]() + fs[2]() * 2 + fs[len(fs) - 1]() * 3 + k\n" % D, I(-1 + D + (D - 1) * 2 + 3 + D + 1)),
+            # a self call in tail position with the wrong number of arguments is the same error as any other call
+            ("arity/too-few", "f := func(n, acc) { if n <= %d - 3 { return f(n - 1) }; return f(n - 1, acc + 1) }\nr := f(%d, 0)\n" % (D, D), {"err": "wrong_num_args"}),
+            ("arity/too-many", "f := func(n, acc) { if n <= 0 { return f(n, acc, 1) }; return f(n - 1, acc + 1) }\nr := f(%d, 0)\n" % D, {"err": "wrong_num_args"}),
+            ("arity/or", "f := func(n, acc) { return n < 0 || f(n - 1) }\nr := f(%d, 0)\n" % D, {"err": "wrong_num_args"}),
+            ("arity/discarded", "f := func(n, acc) { if n < 0 { return }; f(n - 1) }\nr := f(%d, 0)\n" % D, {"err": "wrong_num_args"}),
+            ("arity/variadic-too-few", "f := func(n, acc, ...rest) { if n <= 0 { return f(n) }; return f(n - 1, acc + 1, 7) }\nr := f(%d, 0)\n" % D, {"err": "wrong_num_args"}),
+            ("arity/zero-params", "n := %d\nf := func() { if n <= 0 { return f(1) }; n -= 1; return f() }\nr := f()\n" % D, {"err": "wrong_num_args"}),
+        ]
         shapes = [(t + ("" if "@" in t else "@%d" % D), s_, w) for (t, s_, w) in shapes]
     scases = [{"id": i + 1, "src": s_, "inputs": [], "mods": [], "timeout_ms": 60000} for i, (t, s_, w) in enumerate(shapes)]
     sres = semlib.real_outcomes(ck, scases, nproc=8)
@@ -207,6 +223,8 @@ def run(ck):
         o = sres[i + 1]
         ck.evaluations += 1
         got = dict((n, v) for n, v in o.get("g", [])).get("r") if o.get("k") == "ok" else None
+        if isinstance(w, dict) and "err" in w:
+            got = {"err": o.get("kind")} if o.get("k") == "runtime_error" else got
         if got != w:
             ck.violation("tail-shape:" + t.split("@")[0], "self tail call (%s) at depth %s: expected r = %s, got %s %s\n%s" % (
                 t.split("@")[0], t.split("@")[1], w, o.get("k"), str(o.get("msg") or got)[:200], s_), {"program": {"src": s_, "tag": t}, "real": o})
